@@ -1,3 +1,4 @@
+import Sparrow.Proofs.ExchangeGlueEquiv
 import Sparrow.Proofs.LifeLemmas
 import Sparrow.Generated.Lifecycle
 /-
@@ -79,3 +80,25 @@ example : run (fresh 6 "G")
   config_determines 6 "G" _ (by decide)
 
 end Sparrow.Props.C16
+
+namespace Sparrow.Props.C16.ExchangeGlue
+open Sparrow Sparrow.Generated.ExchangeGlue Sparrow.Generated.Kernels
+
+/-- **`calculate_energy_exchange` as translated.**  There is a distance matrix `Dm`, equal to the centre distances
+    on all patch pairs, such that: if a histogram is stored and `recalculate` is off, NOTHING changes; otherwise the
+    histogram becomes the kernel's result for the arguments of this call (order < 1: the initial energy only) and
+    the three stored parameters become the arguments of this call — all four together. -/
+theorem calculateEnergyExchange_eq (P D B nVis : Nat) (pc : Nat → Nat → ℝ) (d0 : Nat → ℝ) (e0 : Nat → Nat → Nat → ℝ)
+    (fft : Nat → Nat → Nat → Nat → ℝ) (p2o : Nat → Nat → Nat) (vp : Nat → Nat → Nat)
+    (etc0 : Option (Nat → Nat → Nat → Nat → ℝ)) (dt0 c0 dur0 : Option ℝ) (c dt dur : ℝ) (K : Int) (recalc : Bool)
+    (s0 s1 s2 s3 s4 s5 s6 s7 : Nat) (junk : Nat → Nat → ℝ) :
+    ∃ Dm : Nat → Nat → ℝ, (∀ i j, i < P → j < P → Dm i j = exDist pc i j) ∧
+      calculateEnergyExchange P 3 pc s0 d0 P D B e0 s1 s2 s3 s4 fft s5 s6 p2o nVis s7 vp P etc0 dt0 c0 dur0 c dt dur K recalc junk =
+        if etc0.isNone = true ∨ recalc = true then
+          (some (if K < 1 then energyExchangeInitEnergy (ToBin.floorNat (dur / dt)) P D B e0 s0 d0 c dt
+                 else energyExchange (ToBin.floorNat (dur / dt)) P D B e0 s0 d0 P P Dm s1 s2 s3 s4 fft s5 s6 p2o c dt K.toNat nVis s7 vp),
+           some dt, some c, some dur)
+        else (etc0, dt0, c0, dur0) :=
+  Sparrow.calculateEnergyExchange_eq P D B nVis pc d0 e0 fft p2o vp etc0 dt0 c0 dur0 c dt dur K recalc s0 s1 s2 s3 s4 s5 s6 s7 junk
+
+end Sparrow.Props.C16.ExchangeGlue
